@@ -765,3 +765,8 @@ silent('C11', 'buffer-can-put-via-occupancy-helper',
 fire('C11', 'buffer-can-put-ge-via-helper (seed C09-a)', 'C11.R1', 'Buffer.can_put',
      lambda p: M.replace_node(p, E_BUF, 'Buffer.can_put', lambda n: isinstance(n, ast.Return) and 'reservations_put' in ast.unparse(n),
                               'return self.capacity - self.occupancy() >= len(self.inbuiltstore.reservations_put)'))
+fire('C13', 'continuous-release-cancels-only-when-accumulating (seed C13-a)', 'C13.R6', 'continuous_conveyor.py::ConveyorBelt.set_conveyor_state',
+     lambda p: M.replace_node(p, E_CC, 'ConveyorBelt.set_conveyor_state', M.stmt_calling('self.belt.interrupt_and_resume_all_delayed_interrupt_processes'),
+                              'if self.accumulating:\n    self.belt.interrupt_and_resume_all_delayed_interrupt_processes()'))
+fire('C13', 'continuous-delayed-interrupt-untracked', 'C13.R6', 'belt_store.py::BeltStore.handle_new_item_during_interruption',
+     lambda p: M.delete_stmt(p, S_BELT, 'BeltStore.handle_new_item_during_interruption', M.assign_to('self.active_delayed_interrupt_processes[item_id]')))
